@@ -546,6 +546,9 @@ func (c *C) Noop() error {
 // Close sends the QUIT command, if it fails - it directly closes the
 // connection.
 func (c *C) Close() error {
+	if c.cl == nil {
+		return nil
+	}
 	c.cl.CommandTimeout = 5 * time.Second
 
 	if err := c.cl.Quit(); err != nil {
@@ -564,7 +567,12 @@ func (c *C) Close() error {
 			c.Log.Error("QUIT error", c.wrapClientErr(err, c.serverName))
 		}
 
-		return c.cl.Close()
+		// The connection is gone whatever the outcome of QUIT was, do not
+		// leave a client behind: Client() != nil means "connected" for callers.
+		err := c.cl.Close()
+		c.cl = nil
+		c.serverName = ""
+		return err
 	}
 
 	c.cl = nil
